@@ -71,7 +71,7 @@ BOUNDS = {
     'thorough': {'trials_point_A': 5, 'trials_point_B': 3, 'partitions': 52, 'error_rates': [0.1, 0.2],
                  'trial_sets': {'1': 2, '2': 8, '3': 3}, 'mode': {'1': 'tt', '2': 'ttq', '3': 'ttq'}},
 }
-BUDGET_S = {'quick': 600, 'thorough': 3600}
+BUDGET_S = {'quick': 600, 'thorough': 7200}
 
 KINDS = ['json', 'gz', 'zip', 'merged']
 RATES = [0.1, 0.2]
